@@ -21,6 +21,8 @@ IMPORTS = ("From Coq Require Import List ZArith Bool.\nImport ListNotations.\n"
 # keyword codes (0 and 1 are fixed by the model)
 KEYS = {0: "antenna_class", 1: "require_mc_truth", 4: "thr", 5: "power", 6: "gain", 7: "req", 8: "foo"}
 KCODE = {v: k for k, v in KEYS.items()}
+# antenna_class codes: 0, 1 stub antennas; 2, 3 real pyrex Antenna (quiet / loud noise); 4, 5 real AntennaSystem
+ACLS = [0, 1, 2, 2, 3, 4, 4, 5]
 
 # harness-defined Detector subclasses: base (set_positions fills antenna_positions) or
 # composite (fills subsets), optional build_antennas / triggered overrides with the listed
@@ -59,11 +61,81 @@ class World:
         self.log = []
         self.reg = {}
         world = self
+        import numpy
+        numpy.random.seed(20261001)      # thermal noise of the real leaves (outcomes do not depend on it)
+
+        import numpy as np
+        from pyrex.antenna import Antenna
+        from pyrex.signals import Signal
+        self.kind = {}          # aid -> 'stub' | 'quiet' | 'loud'
+        times = np.linspace(0, 63e-9, 64)
+
+        class ThrBase(Antenna):
+            """real pyrex Antenna with a threshold trigger on |V|; thermal noise far below (quiet) or far
+            above (loud) the threshold, so that is_hit / is_hit_mc_truth are decided by what it received"""
+            thr = 0.5
+
+            def trigger(self, signal):
+                return bool(np.max(np.abs(signal.values)) > self.thr)
+
+        class ThrLeaf(ThrBase):
+            silent = False
+
+            def clear(self, reset_noise=False):
+                if not self.silent:
+                    world.log.append(("LClear", self.aid, int(reset_noise)))
+                super().clear(reset_noise=reset_noise)
+
+        class SysLeaf(D.AntennaSystem):
+            """real AntennaSystem (identity front end) around a threshold antenna"""
+            silent = False
+
+            def __init__(self, position, rms):
+                super().__init__(ThrBase)
+                self.setup_antenna(position=position, noisy=True, noise_rms=rms, freq_range=(100e6, 400e6),
+                                   unique_noise_waveforms=2)
+
+            def clear(self, reset_noise=False):
+                if not self.silent:
+                    world.log.append(("LClear", self.aid, int(reset_noise)))
+                super().clear(reset_noise=reset_noise)
+
+        def real_leaf(code, position):
+            """antenna_class codes 2..5: Antenna quiet / loud, AntennaSystem quiet / loud"""
+            rms = 1e-3 if code in (2, 4) else 100.0
+            pos = tuple(float(x) for x in position)
+            if code in (2, 3):
+                a = ThrLeaf(position=pos, noisy=True, noise_rms=rms, freq_range=(100e6, 400e6), unique_noise_waveforms=2)
+            else:
+                a = SysLeaf(pos, rms)
+            a.aid = int(position[0])
+            world.kind[a.aid] = "quiet" if code in (2, 4) else "loud"
+            return a
+
+        def set_hit(a, hit, mc):
+            """script the hit pattern of a leaf; for real leaves by what they receive"""
+            k = world.kind.get(a.aid, "stub")
+            if k == "stub":
+                a.is_hit, a.is_hit_mc_truth = hit, mc
+                return
+            if (hit, mc) not in ([(False, False), (True, True)] if k == "quiet" else [(False, False), (True, False)]):
+                raise ValueError("hit pattern %r not producible on a %s antenna" % ((hit, mc), k))
+            a.silent = True
+            a.clear()
+            a.silent = False
+            if hit:
+                amp = 1.0 if k == "quiet" else 0.1
+                a.receive(Signal(times, np.full(len(times), amp), value_type=Signal.Type.voltage))
+        self.real_leaf, self.set_hit = real_leaf, set_hit
 
         class V(int):
-            """keyword/positional argument value; callable so that it can serve as antenna_class"""
+            """keyword/positional argument value; callable so that it can serve as antenna_class
+            (0, 1 and >= 6: stub antennas; 2..5: real pyrex Antenna / AntennaSystem leaves)"""
             def __call__(self, *args, position=None, **kw):
-                a = StubAnt(position)
+                if 2 <= int(self) <= 5:
+                    a = real_leaf(int(self), position)
+                else:
+                    a = StubAnt(position)
                 world.reg[a.aid] = a
                 world.log.append(("LAnt", a.aid, int(self), [int(x) for x in args],
                                   [(KCODE[k], int(v)) for k, v in kw.items()]))
@@ -75,6 +147,7 @@ class World:
                 self.aid = int(position[0])
                 self.is_hit = False
                 self.is_hit_mc_truth = False
+                world.kind[self.aid] = "stub"
 
             def clear(self, reset_noise=False):
                 world.log.append(("LClear", self.aid, int(reset_noise)))
@@ -83,6 +156,9 @@ class World:
 
         self.V, self.StubAnt = V, StubAnt
         self.classes = [self._make_class(i, c) for i, c in enumerate(CLASSES)]
+
+    def is_leaf(self, x):
+        return hasattr(x, "aid") and not isinstance(x, (list, self.D.Detector))
 
     def _make_class(self, ci, spec):
         V, D, world = self.V, self.D, self
@@ -169,7 +245,8 @@ def exec_op(world, env, op):
         env.append(obj)
         return ("OutOk",)
     if kind == "OAnt":
-        a = world.StubAnt((op[1][0], 0, op[1][1]))
+        # every third standalone antenna is a real pyrex Antenna (quiet threshold antenna)
+        a = world.real_leaf(2, (op[1][0], 0, op[1][1])) if op[1][0] % 3 == 0 else world.StubAnt((op[1][0], 0, op[1][1]))
         world.reg[a.aid] = a
         env.append(a)
         return ("OutOk",)
@@ -224,8 +301,7 @@ def exec_op(world, env, op):
         return ("OutLog", r, list(world.log))
     if kind == "OSetHit":
         _, aid, hit, mc = op
-        a = world.reg[aid]
-        a.is_hit, a.is_hit_mc_truth = hit, mc
+        world.set_hit(world.reg[aid], hit, mc)
         return ("OutOk",)
     if kind == "OObs":
         _, i, idx = op
@@ -234,18 +310,18 @@ def exec_op(world, env, op):
         x = env[i]
         if isinstance(x, list):
             ants = list(x)
-        elif isinstance(x, world.StubAnt):
+        elif world.is_leaf(x):
             ants = [x]
         else:
             ants = list(x)                  # Detector.__iter__
         items = []
         for k in idx:
             try:
-                it = x[k] if not isinstance(x, world.StubAnt) else [x][k]
+                it = x[k] if not world.is_leaf(x) else [x][k]
                 items.append(("Ok", getattr(it, "aid", -998)))
             except Exception as e:
                 items.append(("Err", err_of(e)))
-        n = len(x) if not isinstance(x, world.StubAnt) else 1
+        n = len(x) if not world.is_leaf(x) else 1
         # iteration visits distinct objects exactly when the ids are distinct
         ids = [getattr(a, "aid", -998) for a in ants]     # -998: iteration yielded something that is not an antenna
         if len(set(map(id, ants))) != len(set(ids)):
@@ -397,7 +473,7 @@ class Gen:
         rng = self.rng
         ks = [k for k in keys if rng.random() < 0.5][:pmax]
         rng.shuffle(ks)
-        return [(k, rng.choice([0, 1]) if k in (0, 1) else rng.randint(0, 9)) for k in ks]
+        return [(k, rng.choice(ACLS) if k == 0 else rng.choice([0, 1]) if k == 1 else rng.randint(0, 9)) for k in ks]
 
 
 def gen_history(world, rng, big):
@@ -424,8 +500,8 @@ def gen_history(world, rng, big):
         """a build call the target accepts (antenna_class by keyword or position, plus
         keywords every harness build override knows)"""
         if rng.random() < 0.3:
-            return ("OBuild", i, [rng.choice([0, 1])], [])
-        kw = [(0, rng.choice([0, 1]))]
+            return ("OBuild", i, [rng.choice(ACLS)], [])
+        kw = [(0, rng.choice(ACLS))]
         if rng.random() < 0.4:
             kw.insert(rng.randint(0, 1), (5, rng.randint(0, 9)))
         return ("OBuild", i, [], kw)
@@ -473,7 +549,7 @@ def gen_history(world, rng, big):
             emit(("OIadd", i, j))
         elif r < 0.545 and ns:
             # directed: combine with a plain antenna / antenna list that lies above the surface
-            above = [i for i in vs if (isinstance(env[i], world.StubAnt) and env[i].position[2] > 0)
+            above = [i for i in vs if (world.is_leaf(env[i]) and env[i].position[2] > 0)
                      or (isinstance(env[i], list) and any(a.position[2] > 0 for a in env[i]))]
             if not above:
                 continue
@@ -498,18 +574,24 @@ def gen_history(world, rng, big):
                 continue
             args = []
             if rng.random() < 0.25:
-                args = [rng.choice([0, 1])] + [rng.randint(0, 9) for _ in range(rng.choice([0, 0, 1, 2]))]
+                args = [rng.choice(ACLS)] + [rng.randint(0, 9) for _ in range(rng.choice([0, 0, 1, 2]))]
             if rng.random() < 0.45:
                 emit(valid_build(i))
                 continue
             kw = g.kwargs([0, 5, 6, 0] + ([8] if rng.random() < 0.25 else []))
             kw = list(dict(kw).items())
             if not args and rng.random() < 0.7 and 0 not in dict(kw):
-                kw.insert(rng.randint(0, len(kw)), (0, rng.choice([0, 1])))
+                kw.insert(rng.randint(0, len(kw)), (0, rng.choice(ACLS)))
             emit(("OBuild", i, args, kw))
         elif r < 0.82 and world.reg:
             aid = rng.choice(sorted(world.reg))
-            emit(("OSetHit", aid, rng.random() < 0.6, rng.random() < 0.4))
+            k = world.kind.get(aid, "stub")
+            if k == "stub":
+                emit(("OSetHit", aid, rng.random() < 0.6, rng.random() < 0.4))
+            elif rng.random() < 0.7:
+                emit(("OSetHit", aid, True, k == "quiet"))     # quiet: hit by signal; loud: hit by noise only
+            else:
+                emit(("OSetHit", aid, False, False))
             if ns and rng.random() < 0.7:
                 i = rng.choice(ns)
                 kw = list(dict(g.kwargs([1, 4, 7, 1] + ([8] if rng.random() < 0.3 else []))).items())
@@ -517,7 +599,7 @@ def gen_history(world, rng, big):
         elif r < 0.88 and vs:
             i = rng.choice(vs)
             x = env[i]
-            n = 1 if isinstance(x, world.StubAnt) else len(x)
+            n = 1 if world.is_leaf(x) else len(x)
             idx = sorted({0, -1, n - 1, -n, n, -n - 1, rng.randint(-n - 2, n + 1)})
             emit(("OObs", i, idx))
         elif r < 0.95 and ns:
@@ -530,7 +612,7 @@ def gen_history(world, rng, big):
     # final observation of everything
     for i in values():
         x = env[i]
-        n = 1 if isinstance(x, world.StubAnt) else len(x)
+        n = 1 if world.is_leaf(x) else len(x)
         emit(("OObs", i, [0, -1, n]))
     for i in nodes():
         emit(("OTrig", i, [], []))
@@ -595,7 +677,7 @@ def probe(ctx, n):
             if depth <= 0 or r < 0.35:
                 pos = [(next(aid), -rng.randint(0, 5)) for _ in range(rng.randint(0, 3))]
                 o = world.classes[rng.choice([0, 5])](pos)
-                o.build_antennas(V(0))
+                o.build_antennas(V(rng.choice([0, 2, 3, 4, 5])))
                 return o, list(o.subsets)
             if r < 0.45:
                 a = world.StubAnt((next(aid), 0, -1))
@@ -646,10 +728,16 @@ def probe(ctx, n):
                   and all(d[-i - 1] is expect[-i - 1] for i in range(len(expect))))
             if ok and expect:
                 h = rng.choice(expect)
-                h.is_hit = True
-                ok = d.triggered() is True and d.triggered(require_mc_truth=True) is False
-                h.is_hit_mc_truth = True
-                ok = ok and d.triggered(require_mc_truth=True) is True
+                k = world.kind.get(h.aid, "stub")
+                if k == "stub":
+                    h.is_hit = True
+                    ok = d.triggered() is True and d.triggered(require_mc_truth=True) is False
+                    h.is_hit_mc_truth = True
+                    ok = ok and d.triggered(require_mc_truth=True) is True
+                else:
+                    # real Antenna / AntennaSystem leaf: hit by a real received signal (quiet) or by its noise (loud)
+                    world.set_hit(h, True, k == "quiet")
+                    ok = d.triggered() is True and d.triggered(require_mc_truth=True) is (k == "quiet")
                 d.clear()
                 ok = ok and not any(a.is_hit or a.is_hit_mc_truth for a in expect) and d.triggered() is False
             if not ok:
@@ -766,9 +854,10 @@ def run(ctx):
     ctx.extra["ast_pins"] = {"changed": changed, "current": now}
     if changed and not ctx.thorough:
         # the hand-modelled source was edited since the model was validated: escalate
-        n = 1500
+        n = 700
         big = True
     histories, outs_all, tags = [], [], []
+    leaf_kinds = {}
     for name, ops in corpus_histories():
         ops = fix_ops(ops)
         histories.append(ops)
@@ -777,6 +866,8 @@ def run(ctx):
     for t in range(n):
         world = World()
         ops, outs = gen_history(world, ctx.rng, big)
+        for kk in world.kind.values():
+            leaf_kinds[kk] = leaf_kinds.get(kk, 0) + 1
         histories.append(ops)
         outs_all.append(outs)
         tags.append("gen%d" % t)
@@ -798,6 +889,7 @@ def run(ctx):
                     break
         corr_ok = nbad == 0
         ctx.oblige("corr:detector-histories", corr_ok, "%d histories disagree" % nbad if nbad else "")
+    ctx.extra["leaf_kinds"] = leaf_kinds      # stub / real quiet / real loud (Antenna and AntennaSystem)
     ctx.extra["correspondence"] = {"histories": len(histories), "ops": sum(len(o) for o in histories),
                                    "outcome_kinds": coverage(outs_all),
                                    "op_kinds": {k: sum(1 for ops in histories for o in ops if o[0] == k)
